@@ -26,7 +26,7 @@ import (
 
 type vfC18ECase struct {
 	Epochs   []int // indexes into the world's epochs (ascending epoch numbers), 2..5 of them
-	Outcomes []int // per chosen epoch: 0 the signature is archived here (at most one), 1 sig-exists fails with an I/O error, 2 absent
+	Outcomes []int // per chosen epoch: 0 the signature is archived here (at most one), 1 sig-exists fails with an I/O error, 2 absent, 3 sig-exists fails with a timeout of its own (an error wrapping context.DeadlineExceeded; the request context stays live)
 	Limit    int   // EpochSearchConcurrency
 	Order    []int // completion order over job indexes (jobs are started newest epoch first)
 	Tx       int   // which transaction of the archiving epoch (or of an epoch that is not loaded, when no outcome is 0)
@@ -99,6 +99,8 @@ func (g *vfC18EGate) Has(sig [64]byte) (bool, error) {
 		return true, nil
 	case 1:
 		return false, errVfC18EIO
+	case 3:
+		return false, fmt.Errorf("remote sig-exists read: %w", context.DeadlineExceeded)
 	}
 	return false, nil
 }
@@ -238,11 +240,11 @@ func TestVfC18Epochs(t *testing.T) {
 		hitAt := rapid.IntRange(-1, n-1).Draw(rt, "hit")
 		nerr := 0
 		for i := 0; i < n; i++ {
-			o := rapid.SampledFrom([]int{1, 2, 2}).Draw(rt, "outcome")
+			o := rapid.SampledFrom([]int{1, 2, 2, 3}).Draw(rt, "outcome")
 			if i == hitAt {
 				o = 0
 			}
-			if o == 1 {
+			if o == 1 || o == 3 {
 				nerr++
 			}
 			c.Outcomes = append(c.Outcomes, o)
